@@ -405,7 +405,7 @@ def run(ctx):
                 op = rng.choice(doc.operations)
                 validate_and_maybe_execute(ctx, rng, case, text, "valid", doc, op, amb)
                 # more accepted documents: each is executed and its data compared with the reference shape
-                for _ in range(4):
+                for _ in range(2):
                     g2 = opgen.OpGen(rng, case.ir, max_depth=rng.choice([2, 3, 4]))
                     d2 = g2.document()
                     validate_and_maybe_execute(ctx, rng, case, opgen.document_text(d2), "valid", d2, rng.choice(d2.operations), amb)
@@ -475,6 +475,18 @@ def run(ctx):
                     validate_and_maybe_execute(ctx, rng, case, lexgen.render(rng, mt, "space"), "token-mutant:" + mop, None, None, amb)
                 for mop, mt in mutate.char_mutants(rng, text, 4):
                     validate_and_maybe_execute(ctx, rng, case, mt, "char-mutant:" + mop, None, None, amb)
+        # many more schemas with accepted documents only: executed, data compared with the reference shape
+        for ci in range(ctx.n(30)):
+            case = exec_mon.Case(rng, "c05v:%d:%d:%d" % (ctx.seed, ctx.shard, ci), world_kw={"p_error": 0.05, "p_null_in_nonnull": 0.0})
+            case.sdl = S.to_sdl(case.ir)[0]
+            try:
+                case.schema.validate()
+            except Exception:
+                continue
+            for _ in range(6):
+                g2 = opgen.OpGen(rng, case.ir, max_depth=rng.choice([2, 3, 4]))
+                d2 = g2.document()
+                validate_and_maybe_execute(ctx, rng, case, opgen.document_text(d2), "valid", d2, rng.choice(d2.operations), amb)
     finally:
         amb.uninstall()
     ctx.require("verdict:valid", 20)
